@@ -84,7 +84,7 @@ pub enum IoEvent {
 pub enum FaultKind {
     ReadEof,
     ReadErr,
-    /// a read error of kind Interrupted (still an error: the stream is not looked at again)
+    /// a read error of kind Interrupted, once; the reads after it fail with ConnectionReset
     ReadErrInterrupted,
     WriteErr,
 }
@@ -943,7 +943,10 @@ impl World {
         let mut st = self.lock();
         if st.tr.readable.is_empty() {
             if st.tr.read_err {
+                // Interrupted is answered once; a client that retries the read (the std::io::Read
+                // convention) then meets the lasting error, one that gives up at once is done
                 let kind = if st.tr.read_err_interrupted { io::ErrorKind::Interrupted } else { io::ErrorKind::ConnectionReset };
+                st.tr.read_err_interrupted = false;
                 return Err(io::Error::new(kind, "injected read error"));
             }
             if st.tr.eof_readable {
